@@ -29,6 +29,7 @@ EXPLANATION = (
     "in the counts). R-C11-5: the full/reduced damage masks of the Haibach sum partition the classes on every ordering of "
     "amplitude vs knee, both sums range over the same cycle vector and the numerator sums all classes. Not decided: the "
     "numerical identity damage = 1, damage ordering original <= Haibach <= elementary.")
+EXPLANATION += (' R-C11-6: no write reaches the Woehler curve data handed to the Miner classes. R-C11-7: the damage of a collective does not depend on the order of its members (order-class analysis).')
 ASSUMPTIONS = ["builtin min/max on floats; np.dot is the plain sum of products"]
 
 
